@@ -22,6 +22,7 @@ func main() {
 	replay := flag.String("replay", "", "replay file written by an earlier violation")
 	dump := flag.String("dump", "", "debug: lockset | funcs | arms | units")
 	filter := flag.String("filter", "", "debug: substring filter for -dump")
+	keys := flag.Bool("keys", false, "print violated obligation keys only; write no evidence (used by the witness runner)")
 	flag.Parse()
 
 	if *verif == "" {
@@ -59,6 +60,7 @@ func main() {
 		}
 	}()
 
+	colvet.KeysOnly = *keys
 	if *dump != "" {
 		p, err := colvet.Load(*repo, "")
 		if err != nil {
